@@ -69,12 +69,12 @@ def _attempt(key) -> int:
             n += 1
 
 
-def body(node, vals, npoints=1):
+def body(node, vals, npoints=1, produces=()):
     """Common body: events, pre-emption points, planned faults.  Returns the action."""
     r = _rt.get()
     key = _key(node, *vals)
     att = _attempt(key)
-    r.event("enter", key, att)
+    r.event("enter", key, att, tuple(repr(p) for p in produces))
     for i in range(npoints):
         r.point("body", (node, i))
     action = _plan().get(key)
@@ -133,12 +133,71 @@ def Chain2(x: int) -> int:
 @python.define
 def Tok(node: str, a: ty.Any = None, b: ty.Any = None, c: ty.Any = None) -> ty.Any:
     """Returns a structured token recording exactly which upstream tokens it saw."""
-    body(node, (a, b, c))
-    return ("T", node, a, b, c)
+    tok = ("T", node, a, b, c)
+    body(node, (a, b, c), produces=(tok,))
+    return tok
 
 
 @python.define
 def TokList(node: str, n: int, a: ty.Any = None) -> list:
     """Returns a list of n tokens (a source for downstream splits)."""
-    body(node, (n, a))
-    return [("L", node, i, a) for i in range(n)]
+    toks = [("L", node, i, a) for i in range(n)]
+    body(node, (n, a), produces=toks)
+    return toks
+
+
+# ------------------------------------------------------------------ generated workflows
+
+
+def _ref(ref, x, xs, nodes):
+    k = ref[0]
+    if k == "x":
+        return x
+    if k == "xs":
+        return xs
+    if k == "c":
+        return ref[1]
+    if k == "n":
+        return nodes[ref[1]].out
+    raise ValueError(ref)
+
+
+@workflow.define
+def GenWf(spec: ty.Any, x: ty.Any = None, xs: ty.Any = None) -> ty.Any:
+    """Generic constructor: the generated graph `spec` is an *input*, so different graphs
+    have different identities.  See simlib/wfgen.py for the spec format."""
+    nodes = {}
+    for nd in spec["nodes"]:
+        ins = {f: _ref(r, x, xs, nodes) for f, r in nd["ins"].items()}
+        if nd["kind"] == "wf":
+            t = GenWf(spec=nd["sub"], x=ins.get("a"), xs=ins.get("b"))
+        else:
+            split = nd.get("split")
+            fixed = {f: v for f, v in ins.items() if f != split}
+            if nd["kind"] == "list":
+                t = TokList(node=nd["label"], n=nd["n"], **fixed)
+            else:
+                t = Tok(node=nd["label"], **fixed)
+            if split:
+                t = t.split(**{split: ins[split]})
+        if nd.get("combine"):
+            t = t.combine(nd["combine"])
+        nodes[nd["name"]] = workflow.add(t, name=nd["name"])
+    for late in spec.get("late", []):
+        # connections made after the fact through node input assignment (may close a cycle)
+        setattr(nodes[late[0]].out._node.inputs, late[1], nodes[late[2]].out)
+    return nodes[spec["out"]].out
+
+
+@workflow.define
+def TypedCycle(x: int, n: int = 3, back: ty.Any = None) -> int:
+    """chain of typed Add nodes; `back` = [dst, src] closes a cycle through late assignment"""
+    outs = []
+    prev = x
+    for i in range(n):
+        o = workflow.add(Add(x=prev, k=i), name=f"t{i}")
+        outs.append(o)
+        prev = o.out
+    if back is not None:
+        outs[back[0]].out._node.inputs.x = outs[back[1]].out
+    return outs[-1].out
